@@ -9,7 +9,7 @@ Stages: 1 TLC enumerates the table, checks its theorems, prints every program wi
 4 every variant is written out as text (projection), run on the real `ego`, formatted by the real `ego fmt`, the result
   formatted again and run again; 5 (thorough, and a sample in quick) the .ego files of the repository the same way;
 6 EgoFmt_Trace judges every logged unit; 7 binding self-test (corrupted records must be rejected)."""
-import json, os, random, re, shutil
+import json, os, random, re, shutil, threading
 import vf
 
 PROP = "C05"
@@ -619,6 +619,19 @@ def run():
         "behaviour = standard output + error text with line numbers and durations removed + how the run ended; "
         "the interpreter is the real `ego run` / `ego test` binary at the default optimizer level"]
     with vf.scratch() as sd:
+        # the ego binary and the formatting harness are built while TLC works
+        built = {}
+
+        def build():
+            try:
+                built["ov"] = vf.make_overlay(sd, HARNESS)
+                built["ego"] = vf.build_ego(sd, built["ov"])
+                built["fmt"] = vf.go_test_compile(built["ov"], "./internal/commands/", os.path.join(sd, "fmt.test"), timeout=1800)
+            except BaseException as ex:
+                built["err"] = ex
+        builder = threading.Thread(target=build, daemon=True)
+        if not os.environ.get("C05_DEV_EGO"):
+            builder.start()
         # 1. the table
         cfg = "EgoFmt_Gen.cfg" if thorough else "EgoFmt_Genq.cfg"
         text = open(os.path.join(vf.VERIF, "spec", "EgoFmt", cfg)).read().replace("Seed = 1", "Seed = %d" % vf.SEED)
@@ -655,8 +668,10 @@ def run():
         if dev and os.environ.get("C05_DEV_EGO"):
             ego = os.environ["C05_DEV_EGO"]
         else:
-            _FMT["ov"] = vf.make_overlay(sd, HARNESS)
-            ego = vf.build_ego(sd, _FMT["ov"])
+            builder.join()
+            if "err" in built:
+                raise built["err"]
+            ego, _FMT["ov"], _FMT["bin"], _FMT["n"] = built["ego"], built["ov"], built["fmt"], 0
         env = vf.ego_env(sd)
         if dev:
             only = os.environ.get("C05_DEV_ONLY")
